@@ -1,4 +1,5 @@
 import ProductMD.Proofs.TreeInfoText
+import ProductMD.Proofs.TreeInfoDecEq
 import ProductMD.Model.TreeInfoText
 import ProductMD.Model.DiscInfo
 /-!
@@ -145,5 +146,79 @@ theorem C04_tree_bytes (sp : Char → Bool) (hsp : IniParse.SpOK sp) (hh : sp '#
   have := C04_tree_text sp hsp hh hs fo t mv text n h htext hck himn hts hfl hplat huok hnd hkid htop hcs himg hv
   rw [hnorm] at this
   exact ⟨this, by rw [this]; exact h⟩
+
+/-! ### non-vacuity: a layered tree with a dashed top-level UID, three levels, children of all three types -/
+
+def C04_exTree0 : TreeInfo :=
+  { headerVersion := "0.0".toList, release := ⟨"Fedora".toList, "F".toList, "21".toList⟩, isLayered := true,
+    baseProduct := some ⟨"Base".toList, "B".toList, "7".toList⟩,
+    tree := ⟨"x86_64".toList, .int 1417653911, ["xen".toList]⟩,
+    variants := [.mk "Server-optional".toList "optional".toList "Server-optional".toList "opt".toList "optional".toList [] [],
+                 .mk "Server".toList "Server".toList "Server".toList "Server".toList "variant".toList
+                    [("packages".toList, "Packages".toList), ("identity".toList, "id.pem".toList)]
+                    [.mk "HA".toList "HA".toList "Server-HA".toList "HA".toList "addon".toList []
+                      [.mk "X".toList "X".toList "Server-HA-X".toList "X".toList "variant".toList [] []],
+                     .mk "AA".toList "AA".toList "Server-AA".toList "AA".toList "optional".toList [] []]],
+    checksums := [("images/boot.iso".toList, "sha256".toList, "ab".toList)],
+    images := [("xen".toList, [("kernel".toList, "images/vmlinuz".toList), ("Initrd".toList, "images/initrd".toList)])],
+    mainimage := some "LiveOS/squashfs.img".toList, instimage := some [], discnum := some 1, totaldiscs := some 2 }
+
+/-- its normal form (children and dictionaries sorted, `x86_64` among the platforms, empty `instimage` unset) -/
+def C04_exTree : TreeInfo := norm C04_exTree0
+
+/-- CPython's `int(float(s))` on the strings the examples need: exact below 2^53, rounding `2^53 + 1` down -/
+def C04_fo : FloatOracle :=
+  { intOfFloatStr := fun s => if s = "9007199254740993".toList then .ok 9007199254740992 else Str.pyInt s
+    reprOfFloatStr := fun s => .ok s }
+
+example : norm C04_exTree0 ≠ C04_exTree0 ∧ norm C04_exTree = C04_exTree := by decide +kernel
+example : (serialize C04_exTree none).toBool = true ∧ (serialize C04_exTree0 none).toBool = true := by decide +kernel
+/-- every hypothesis of `C04_tree_readback` / `C04_tree_fixpoint` holds of the example -/
+example : C04_exTree.tree.ts = .int 1417653911 ∧ C04_fo.intOfFloatStr (Str.intStr 1417653911) = .ok 1417653911 ∧
+    PlatformsOK C04_exTree.tree ∧ UidsOK C04_exTree.variants ∧ UidsNodup C04_exTree.variants ∧ KidIdsNodup C04_exTree.variants ∧
+    TopNotAddon C04_exTree.variants ∧ ChecksumsOK C04_exTree.checksums ∧ ImagesOK C04_exTree.tree.arch C04_exTree.images := by
+  decide +kernel
+/-- …and the conclusion, evaluated: reading the written document gives the tree back; for the un-normalised tree its normal form -/
+example : (serialize C04_exTree none).toOption.map (deserialize C04_fo) = some (.ok C04_exTree) := by decide +kernel
+example : (serialize C04_exTree0 none).toOption.map (deserialize C04_fo) = some (.ok (norm C04_exTree0)) := by decide +kernel
+
+/-! ### witnesses for the excluded regions (real defects, replayed on the library by the check) -/
+
+def C04_one (key id uid type : Str) : TreeInfo :=
+  { headerVersion := "0.0".toList, release := ⟨"Fedora".toList, "F".toList, "21".toList⟩, isLayered := false, baseProduct := none,
+    tree := ⟨"x86_64".toList, .int 7, ["x86_64".toList]⟩,
+    variants := [.mk key id uid "n".toList type [] []],
+    checksums := [], images := [], mainimage := none, instimage := none, discnum := none, totaldiscs := none }
+
+/-- F8: a top-level variant with UID ≠ id filed under its id comes back filed under its UID, and `[general] variants` of
+the second dump differs from the first -/
+theorem C04_F8_witness :
+    let t := C04_one "optional".toList "optional".toList "Server-optional".toList "optional".toList
+    (serialize t none).toOption.map (fun d => ((deserialize C04_fo d).toOption.map fun t' =>
+        (t'.variants.map Variant.key, ((serialize t' none).toOption.map fun d' => opt d' sGeneral kVariants), opt d sGeneral kVariants)))
+      = some (some (["Server-optional".toList], some (some "Server-optional".toList), some "optional".toList)) := by
+  decide +kernel
+
+/-- F17: an integer timestamp beyond 2^53 comes back changed (with CPython's rounding of `float("9007199254740993")`) -/
+theorem C04_F17_witness :
+    let t := { C04_one "S".toList "S".toList "S".toList "variant".toList with
+               tree := ⟨"x86_64".toList, .int 9007199254740993, ["x86_64".toList]⟩ }
+    (serialize t none).toOption.map (fun d => (deserialize C04_fo d).toOption.map (·.tree.ts.str))
+      = some (some "9007199254740992".toList) := by
+  decide +kernel
+
+/-- F24: a top-level variant of type `addon` is written but cannot be read back (`NoSectionError`) -/
+theorem C04_F24_witness :
+    (serialize (C04_one "HA".toList "HA".toList "HA".toList "addon".toList) none).toOption.map (deserialize C04_fo)
+      = some (.error .parserError) := by
+  decide +kernel
+
+/-- F25: images for a platform called `xen-x86_64` in an `x86_64` tree are read back under `xen` and refused -/
+theorem C04_F25_witness :
+    let t := { C04_one "S".toList "S".toList "S".toList "variant".toList with
+               tree := ⟨"x86_64".toList, .int 7, ["x86_64".toList, "xen-x86_64".toList]⟩
+               images := [("xen-x86_64".toList, [("kernel".toList, "k".toList)])] }
+    (serialize t none).toOption.map (deserialize C04_fo) = some (.error .valueError) := by
+  decide +kernel
 
 end PM
